@@ -417,6 +417,7 @@ def loc(sp):
 
 class Program:
     def __init__(self, facts):
+        self.facts = {"inlined": facts.get("inlined", [])}
         self.crate = facts["crate"]
         self.funcs = {}
         for fj in facts["functions"]:
@@ -474,6 +475,30 @@ class Program:
                 if len(cs) == 1 and len(present) == 1:
                     self._folded[p] = present[0]
         return self._folded
+
+    def inlined_hosts(self, path):
+        """functions into which the (new, non-reviewed) helper `path` was inlined by the E1 pre-pass and which still exist - transitively through
+        helpers that were themselves inlined.  Empty when `path` was not inlined or is still a function of the program."""
+        if getattr(self, "_inl", None) is None:
+            self._inl = {}
+            for (caller, callee) in self.facts.get("inlined", []) if hasattr(self, "facts") else []:
+                self._inl.setdefault(callee, set()).add(caller)
+        if path not in self._inl and "::{closure" in path:
+            path = re.sub(r"(::\{closure#\d+\})+$", "", path)     # a closure whose enclosing helper no longer exists
+        if path in self.funcs or path not in self._inl:
+            return set()
+        out, seen, st = set(), set(), [path]
+        while st:
+            q = st.pop()
+            if q in seen:
+                continue
+            seen.add(q)
+            for c in self._inl.get(q, ()):
+                if c in self.funcs:
+                    out.add(c)
+                else:
+                    st.append(c)
+        return out
 
     def find(self, regex):
         r = re.compile(regex)
